@@ -105,28 +105,49 @@ func stateConstsOf(c *Ctx, fnKey string, prefixes ...string) map[int64]string {
 
 // mainLoop: the loop `for i < len(buf)` of fn: returns (head, bodyEntry).
 func mainLoop(fn *ssa.Function) (*ssa.BasicBlock, *ssa.BasicBlock) {
+	h, b, _ := mainLoop3(fn)
+	return h, b
+}
+
+// mainLoop3: the scanning loop of fn — a loop head whose own branch compares a loop-carried integer with len(buf).
+// Both spellings are recognised: `for i < len(buf) { body }` (body on the true edge) and
+// `for { if i >= len(buf) { break }; body }` (body on the false edge). Returns head, body entry, exit.
+func mainLoop3(fn *ssa.Function) (head, body, exit *ssa.BasicBlock) {
 	bp := anyBufParam(fn)
 	if bp == nil {
-		return nil, nil
+		return nil, nil, nil
 	}
 	env := newLinEnv(linOpts{})
+	lenKey := "len(" + env.sliceKey(bp) + ")"
 	for _, b := range fn.Blocks {
 		iff, ok := b.Instrs[len(b.Instrs)-1].(*ssa.If)
-		if !ok {
+		if !ok || len(b.Succs) != 2 {
 			continue
 		}
-		for _, f := range env.condFacts(iff.Cond, true) {
-			if f.L.T["len("+env.sliceKey(bp)+")"] == -1 && len(f.L.T) == 2 {
-				// is b a loop head (has a back edge)?
-				for _, p := range b.Preds {
-					if b.Dominates(p) {
-						return b, b.Succs[0]
+		isHead := false
+		for _, p := range b.Preds {
+			if b.Dominates(p) {
+				isHead = true
+			}
+		}
+		if !isHead {
+			continue
+		}
+		for _, truth := range []bool{true, false} {
+			for _, f := range env.condFacts(iff.Cond, truth) {
+				// index - len(buf) + 1 <= 0 on the edge into the body
+				if f.L.T[lenKey] == -1 && len(f.L.T) == 2 && f.L.C == 1 {
+					in, out := b.Succs[0], b.Succs[1]
+					if !truth {
+						in, out = out, in
 					}
+					// the body edge must stay in the loop (reach a back edge), the other one leaves it or not
+					return b, in, out
 				}
 			}
 		}
 	}
-	return nil, nil
+	return nil, nil, nil
 }
 
 type fsmPath struct {
@@ -345,12 +366,12 @@ func (r *fsmRunner) walk(b *ssa.BasicBlock, p fsmPath, from int64, out *[]fsmTra
 					e = nv
 				}
 				if e == ssa.Value(ph) {
-					locals[ph.Comment] = "="
+					locals[phiName(ph)] = "="
 				} else if isIntType(e.Type()) {
 					le := newLinEnv(linOpts{})
-					locals[ph.Comment] = le.pretty(le.norm(e))
+					locals[phiName(ph)] = le.pretty(le.norm(e))
 				} else {
-					locals[ph.Comment] = srcName(e)
+					locals[phiName(ph)] = srcName(e)
 				}
 			}
 		}
@@ -360,11 +381,11 @@ func (r *fsmRunner) walk(b *ssa.BasicBlock, p fsmPath, from int64, out *[]fsmTra
 			if ph.Comment == "" || ph.Block() == b {
 				continue
 			}
-			if _, isHead := locals[ph.Comment]; isHead {
+			if _, isHead := locals[phiName(ph)]; isHead {
 				continue
 			}
-			if cur, ok := latest[ph.Comment]; !ok || ph.Block().Index > cur.Block().Index {
-				latest[ph.Comment] = ph
+			if cur, ok := latest[phiName(ph)]; !ok || ph.Block().Index > cur.Block().Index {
+				latest[phiName(ph)] = ph
 			}
 		}
 		for name, ph := range latest {
@@ -586,11 +607,22 @@ func (r *fsmRunner) branch(b *ssa.BasicBlock, iff *ssa.If, p fsmPath, from int64
 	}
 	// undecidable: fork, recording the condition
 	label := condLabel(r.c, cond)
+	tl, fl := label, "!"+label
+	// option-bit tests are recorded in one canonical spelling ((flags&K) != 0, with the polarity of the branch),
+	// whether the source says `flags&K != 0` or `flags&K == 0`
+	if bo, ok := cond.(*ssa.BinOp); ok && bo.Op == token.EQL {
+		if m, ok := bo.X.(*ssa.BinOp); ok && m.Op == token.AND {
+			if k, isC := constIntOf(bo.Y); isC && k == 0 {
+				l, _ := flagLabel(r.c, bo)
+				tl, fl = "!"+l, l
+			}
+		}
+	}
 	q := p.clone()
-	q.conds = append(q.conds, label)
+	q.conds = append(q.conds, tl)
 	take(tIdx, q)
 	q2 := p.clone()
-	q2.conds = append(q2.conds, "!"+label)
+	q2.conds = append(q2.conds, fl)
 	take(fIdx, q2)
 }
 
@@ -610,7 +642,7 @@ func condLabel(c *Ctx, cond ssa.Value) string {
 // extractFSM runs the extraction for every state constant x the full byte set.
 func extractFSM(c *Ctx, e *errAnalysis, spec fsmSpec) *fsmResult {
 	res := &fsmResult{spec: spec}
-	head, body := mainLoop(spec.fn)
+	head, body, exit := mainLoop3(spec.fn)
 	if head == nil {
 		return res
 	}
@@ -642,7 +674,7 @@ func extractFSM(c *Ctx, e *errAnalysis, spec fsmSpec) *fsmResult {
 		r.walk(body, p, k, &res.trans, true)
 		// buffer exhausted in state k
 		p2 := fsmPath{st: k, bytes: fullSet(), verd: map[ssa.Value]VSet{}, visited: map[*ssa.BasicBlock]int{}, prev: head, phis: map[*ssa.Phi]ssa.Value{}}
-		r.walk(head.Succs[1], p2, k, &res.post, false)
+		r.walk(exit, p2, k, &res.post, false)
 	}
 	return res
 }
